@@ -38,7 +38,7 @@ def _ledger_models(tier, invariants, properties):
             ms.append(model("sf3-%s" % fees, ["S1", "G1", "H2"], BASE_OPS, 5, fees=fees, bids=(8, 10, 12),
                             dqs=(-3, -1, 1, 2), invariants=invariants, properties=properties))
         ms.append(model("sf-interest", ["S5", "F5"], ["quote", "trade", "value", "accrue", "query", "lots"], 5,
-                        fees="paid", rate=F(1, 100), markup=F(1, 200), steps=(1, 2), dqs=(-1, 2),
+                        fees="free", rate=F(1, 8), markup=F(1, 16), steps=(1, 2), maxclk=3, dqs=(-1, 2),
                         lots=[{"F5": 1}], invariants=invariants, properties=properties))
     return ms
 
